@@ -19,6 +19,12 @@ package protobuf
 //@ func (*encoder).DecodeFrom
 //@   props C12
 //@   recoverguard
+// C11: the byte count DecodeFrom reports is the number of bytes it took from the reader: what is
+// unmarshalled is what io.Copy has just drained from the reader (never the reader's own storage,
+// which would leave the bytes in place)
+//@   ghostvar drained bool = false
+//@   after call io.Copy: drained = (res1 == nil)
+//@   assert[C11] call Unmarshal: drained
 
 // pooled scratch buffers are always emptied before they go back to the pool (otherwise a
 // rejected frame leaks into the next decode: wrong byte counts or spurious errors)
